@@ -14,7 +14,7 @@ for f in selftest/harmless/*.diff; do
     (cd $scratch && go build ./... && go test -vet=off -count=1 ./... >/dev/null 2>&1) || { echo "$n: suite fails with the harmless change (bad corpus entry)"; fail=1; }
   fi
   for p in $(cat selftest/harmless/$n.props); do
-    out=$(./bin/kvc check -repo $scratch -prop $p -no-evidence 2>&1); rc=$?
+    out=$(./bin/kvc check -repo $scratch -prop $p -no-evidence -no-replay 2>&1); rc=$?
     if [ $rc -ne 0 ]; then echo "FALSE ALARM  $n on $p (exit $rc): $(echo "$out" | grep "^VIOLATION\|^UNDECIDED\|^ENGINE" | head -2 | sed 's#replay=/verif/replays/##')"; fail=1; else echo "quiet        $n on $p"; fi
   done
   rm -rf $scratch
